@@ -3037,6 +3037,8 @@ def SIR_heterogeneous_pairwise(Sk0, Ik0, Rk0, SkSl0, SkIl0, tau, gamma,
 
     Nk = Sk0+Ik0+Rk0
     kcount = len(Ks)
+    SkSl0 = SkSl0.copy()
+    SkIl0 = SkIl0.copy()
     SkSl0.shape = (kcount**2,1)
     SkIl0.shape = (kcount**2,1)
 
@@ -4044,6 +4046,8 @@ def SIS_effective_degree(Ssi0, Isi0, tau, gamma, tmin = 0, tmax=100,
     times = np.linspace(tmin,tmax,tcount) 
     original_shape = Ssi0.shape
     ksq = original_shape[0]*original_shape[1]
+    Ssi0 = Ssi0.copy()
+    Isi0 = Isi0.copy()
     Ssi0.shape = (1,ksq)
     Isi0.shape = (1,ksq)
     
@@ -4119,6 +4123,7 @@ def SIR_effective_degree(S_si0, I0, R0, tau, gamma, tmin=0, tmax=100,
     times = np.linspace(tmin,tmax, tcount)
     N = S_si0.sum()+I0+R0
     original_shape = S_si0.shape
+    S_si0 = S_si0.copy()
     S_si0.shape = (original_shape[0]*original_shape[1]) 
     #note this makes it array([[values...]])
     R0=np.array([R0])
